@@ -244,9 +244,16 @@ def split_seq(h, nsteps):
 # ------------------------------------------------------------------------------------------------ parsing
 
 def read_gm(t, p, n, k, conv):
-    mean = vlib.mat_from_cm(t[p:p + n * k], n, k, conv); p += n * k
-    cov = vlib.mat_from_cm(t[p:p + n * n * k], n, n * k, conv); p += n * n * k
-    w = t[p:p + k]; p += k
+    """a mixture printed with its shape in front; returns (means, covs, weights, p) — means / covs are None when the
+    shape is not that of k components of dimension n"""
+    comps, mr, mc, cr, cc, wn = [int(x) for x in t[p:p + 6]]; p += 6
+    mean_t = t[p:p + mr * mc]; p += mr * mc
+    cov_t = t[p:p + cr * cc]; p += cr * cc
+    w = t[p:p + wn]; p += wn
+    if (comps, mr, mc, cr, cc) != (k, n, k, n, n * k):
+        return None, None, w, p
+    mean = vlib.mat_from_cm(mean_t, n, k, conv)
+    cov = vlib.mat_from_cm(cov_t, n, n * k, conv)
     means = [[mean[r][i] for r in range(n)] for i in range(k)]
     covs = [[[cov[a][n * i + b] for b in range(n)] for a in range(n)] for i in range(k)]
     return means, covs, w, p
@@ -288,6 +295,8 @@ def check_ukfp(meta, h, stats, notes):
     p = 3
     um, uc, uw, p = read_gm(t, p, n, k, frac_of_hex)
     km, kc, kw, p = read_gm(t, p, n, k, frac_of_hex)
+    if um is None or km is None:
+        return [("prop", "predict-shape-differs", "UKFPrediction returned a mixture of another shape than %d components of dimension %d (KFPrediction: %s)" % (k, n, "same problem" if km is None else "expected shape"))], None, None
     X = vlib.mat_from_cm(t[p:p + xr * xc], xr, xc, frac_of_hex); p += xr * xc
     if t[p] != "in-same":
         notes["input_modified"] = notes.get("input_modified", 0) + 1
@@ -414,6 +423,10 @@ def check_ukfc(meta, h, stats, notes):
     ulik, p = read_lik(t, p)
     km, kc, kw, p = read_gm(t, p, n, k, frac_of_hex)
     klik, p = read_lik(t, p)
+    if um is None or km is None:
+        if meta["fail"]:
+            return [], None, None
+        return [("prop", "correct-shape-differs", "UKFCorrection returned a mixture of another shape than %d components of dimension %d (KFCorrection: %s)" % (k, n, "same problem" if km is None else "expected shape"))], None, None
     X = vlib.mat_from_cm(t[p:p + xr * xc], xr, xc, frac_of_hex); p += xr * xc
     if t[p] != "in-same":
         notes["input_modified"] = notes.get("input_modified", 0) + 1
@@ -601,10 +614,16 @@ def run(ctx):
     for ci, (meta, h) in enumerate(zip(metas, hout)):
         if meta["op"] == "ukfp":
             key = "predict:%s%s%s" % ("augmented" if meta["variant"] else "additive", "+skip" if meta["skip"] else "", "+exo" if meta["exo"] else "")
-            probs, o, Bs = check_ukfp(meta, h, stats, notes)
+            try:
+                probs, o, Bs = check_ukfp(meta, h, stats, notes)
+            except (IndexError, ValueError) as e:
+                probs, o, Bs = [("prop", "predict-output-malformed", "UKFPrediction/KFPrediction output is not of the expected form (%s): %s" % (type(e).__name__, h[:80]))], None, None
         else:
             key = "correct:%s%s%s" % ("augmented" if meta["variant"] else "additive", "+fail%d" % meta["fail"] if meta["fail"] else "", "+online" if meta["online"] else "")
-            probs, o, Bs = check_ukfc(meta, h, stats, notes)
+            try:
+                probs, o, Bs = check_ukfc(meta, h, stats, notes)
+            except (IndexError, ValueError) as e:
+                probs, o, Bs = ([] if meta["fail"] else [("prop", "correct-output-malformed", "UKFCorrection/KFCorrection output is not of the expected form (%s): %s" % (type(e).__name__, h[:80]))]), None, None
         hist[key] = hist.get(key, 0) + 1
         hist["components=%d" % meta["k"]] = hist.get("components=%d" % meta["k"], 0) + 1
         hist["P=" + meta["pstyle"]] = hist.get("P=" + meta["pstyle"], 0) + 1
